@@ -223,8 +223,16 @@ def check_real_wfs(ck):
                 ck.violation("restore_then_flatten_mismatch", S_LT, {"wf": name}, expected="serialize(deserialize(x)) = x", got="differs")
         for k in pk:
             wf.parameters[k] = before[k]
-        # --- pgradient vs finite differences
+        # --- pgradient vs finite differences; the object reports its derivatives in the state a sampler leaves it in
+        # (single-electron moves with partial accept masks and cached values), the numerical derivative recomputes from scratch
         wf.recompute(cfg)
+        try:
+            from c20 import sampler_step
+            for e in range(cfg.configs.shape[1]):
+                sampler_step(wf, cfg, ck.rng, e, scale=0.5)
+        except Exception as e:  # noqa
+            ck.violation("pgradient_exception", S_PG, {"wf": name}, expected="sampler steps work", got=repr(e))
+            continue
         try:
             pg = {k: np.asarray(v) for k, v in wf.pgradient().items()}
         except Exception as e:  # noqa
